@@ -1217,6 +1217,8 @@ struct Ctx {
     budget: u64,
     streams: u64,
     samples: u64,
+    /// remaining budget of `sd stream` lines (composed model of the decoder on whole streams)
+    stream_budget: u64,
 }
 
 impl Ctx {
@@ -1230,7 +1232,7 @@ impl Ctx {
                 }
             }
         }
-        Ctx { dfa, nonterminal, seen: HashSet::new(), budget: if cfg.thorough { 600_000 } else { 150_000 }, streams: 0, samples: 0 }
+        Ctx { dfa, nonterminal, seen: HashSet::new(), budget: if cfg.thorough { 600_000 } else { 150_000 }, streams: 0, samples: 0, stream_budget: if cfg.thorough { 150_000 } else { 15_000 } }
     }
     fn is_nonterminal(&self, m: &Msg) -> bool {
         matches!(m, Msg::Key(i) if self.nonterminal.contains(i))
@@ -1410,6 +1412,58 @@ fn check_stream(out: &mut Out, stream: &[u8], wires: &[String], expected: &[Stri
     ok
 }
 
+fn events_text(evs: &[String]) -> String {
+    if evs.is_empty() { "-".to_string() } else { evs.join(" ") }
+}
+
+/// could the stream contain an OSC token whose colour text the model does not cover (`ext`)? Every OSC token
+/// starts at some `ESC ]` and ends at the first BEL or `ESC \` after it.
+fn may_be_external(stream: &[u8]) -> bool {
+    for i in 0..stream.len().saturating_sub(1) {
+        if stream[i] == 0x1b && stream[i + 1] == b']' {
+            let mut j = i + 2;
+            while j < stream.len() && stream[j] != 7 && stream[j] != 0x1b {
+                j += 1;
+            }
+            if j < stream.len() {
+                let end = if stream[j] == 7 { j + 1 } else { (j + 2).min(stream.len()) };
+                if guarded(|| events::osc_color_field(&stream[i..end]).map(color_ext).unwrap_or(false)).unwrap_or(true) {
+                    return true;
+                }
+            }
+        }
+    }
+    false
+}
+
+/// correspondence of the COMPOSED model (tokenizer over the installed dumped table, tag selection, payload
+/// decoders: `SurfModel.Stream.decodeEvents`) with the real decoder on the whole stream and, one time in
+/// four, on a damaged copy (the model must follow the implementation on any bytes)
+fn stream_lines(ctx: &mut Ctx, out: &mut Out, rng: &mut Rng, stream: &[u8]) {
+    if ctx.stream_budget == 0 || stream.is_empty() {
+        return;
+    }
+    ctx.stream_budget -= 1;
+    out.corr(&format!("sd stream {}", hex(stream)), &events_text(&decode_chunks(&[stream.to_vec()])));
+    out.hist("tie:composed-stream");
+    if rng.chance(1, 4) {
+        let mut g = stream.to_vec();
+        let i = rng.below(g.len() as u64) as usize;
+        match rng.below(4) {
+            0 => g[i] = rng.below(0x80) as u8,
+            1 => {
+                g.remove(i);
+            }
+            2 => g.insert(i, rng.below(0x80) as u8),
+            _ => g.truncate(i + 1),
+        }
+        if !g.is_empty() && !may_be_external(&g) {
+            out.corr(&format!("sd stream {}", hex(&g)), &events_text(&decode_chunks(&[g.clone()])));
+            out.hist("tie:composed-stream-damaged");
+        }
+    }
+}
+
 /// a stream of messages: oracle under three partitions, statistics, correspondence lines
 fn run_case(ctx: &mut Ctx, out: &mut Out, rng: &mut Rng, msgs: &[Msg], expected_override: Option<Vec<String>>) {
     let mut stream = vec![];
@@ -1420,6 +1474,7 @@ fn run_case(ctx: &mut Ctx, out: &mut Out, rng: &mut Rng, msgs: &[Msg], expected_
     let wires: Vec<String> = msgs.iter().map(wire).collect();
     let parts = vec![partition(rng, &stream, 0), partition(rng, &stream, 1), partition(rng, &stream, 2)];
     check_stream(out, &stream, &wires, &expected, &parts);
+    stream_lines(ctx, out, rng, &stream);
     let nontrivial = msgs.iter().any(|m| !matches!(family(m), 0 | 12));
     out.case(&hex(&stream), nontrivial);
     out.hist(&format!("len:{}", msgs.len()));
@@ -1653,10 +1708,10 @@ fn sd_line(ctx: &Ctx, out: &mut Out) {
 
 fn fixed_lines(out: &mut Out, rng: &mut Rng) {
     for n in 0..=2100usize {
-        out.corr(&format!("pay decmode {n}"), &DecMode::from_usize(n).map(|m| (m as usize).to_string()).unwrap_or("none".into()));
+        out.corr(&format!("pay decmode {n}"), &DecMode::from_usize(n).map(|m| events::dec_mode_number(m).to_string()).unwrap_or("none".into()));
     }
     for n in 0..=12usize {
-        out.corr(&format!("pay decstatus {n}"), &DecModeStatus::from_usize(n).map(|m| (m as usize).to_string()).unwrap_or("none".into()));
+        out.corr(&format!("pay decstatus {n}"), &DecModeStatus::from_usize(n).map(|m| events::dec_status_number(m).to_string()).unwrap_or("none".into()));
     }
     let ranges: [(u64, u64); 7] =
         [(0, 200), (55290, 57350), (57370, 57400), (63740, 63750), (0x10fff0, 0x110010), (4294967290, 4294967300), (1 << 40, 1 << 40)];
